@@ -1,4 +1,7 @@
 import Mps.Judge
+import MpsProps.Src.SrcCmpKeygen
+import MpsProps.Src.SrcFrostKeygen
+import MpsProps.Src.SrcDoernerKeygen
 import MpsProps.C08alg
 import MpsProps.AlgGen
 /-
